@@ -190,7 +190,7 @@ def _sanity_checks(f, holder):
     reads <holder>->m_traversal.back().num_nodes"""
     out = []
     for n in f.body.walk():
-        if n.kind in ('BinaryOperator',) and n.op == '==':
+        if n.kind in ('BinaryOperator',) and n.op in ('==', '!='):
             txt = n.text(8)
             if 'num_nodes' in txt and 'm_traversal' in txt and 'size' in txt:
                 base = None
@@ -271,6 +271,9 @@ def m5(ctx):
                               '%s: namespace of the new treespec is not derived from a source '
                               'treespec or the namespace argument' % inst(f), c.loc)
             sc = _sanity_checks(f, holder)
+            # ... a comparison whose "differs" outcome cannot reach the normal exit (it throws)
+            sc = [s for s in sc if cfg.cnode_of(s) is not None and cfg.exit.idx not in cfg.forward_reachable(
+                [w for (w, lab) in cfg.succ[cfg.cnode_of(s)] if lab is (s.op == '!=')])]
             cut = {cfg.cnode_of(s) for s in sc if cfg.cnode_of(s) is not None}
             pd = bool(cut) and cfg.exit.idx not in cfg.reachable_from([cn], None, cut)
             ctx.check(site + '/sanity', bool(pd),
